@@ -4,8 +4,12 @@ use crate::client::{must_encode_in_segment, pct_encode_with};
 use crate::model::*;
 use crate::rng::Rng;
 
-pub const METHODS: [&str; 7] =
-    ["GET", "PUT", "POST", "DELETE", "OPTIONS", "HEAD", "PATCH"];
+/// the last one is an extension method with lower-case letters: requests name it
+/// byte for byte (other spellings of a method token are never generated, F2 in
+/// DESIGN.md §7); in `Allow` dropshot reports method tokens upper-cased, which the
+/// model mirrors
+pub const METHODS: [&str; 8] =
+    ["GET", "PUT", "POST", "DELETE", "OPTIONS", "HEAD", "PATCH", "Purge"];
 
 /// literal segments (several need percent-encoding on the wire)
 pub const LITERALS: [&str; 10] =
@@ -258,7 +262,7 @@ pub fn gen_endpoint(
         _ => (
             gen_template(rng, cfg, base.as_ref()),
             {
-                let k = 4 + rng.usize(4);
+                let k = 4 + rng.usize(5);
                 rng.pick(&METHODS[..k]).to_string()
             },
         ),
